@@ -660,7 +660,12 @@ class RTCDtlsTransport(AsyncIOEventEmitter):
             if data is None:
                 self.__log_debug("- DTLS shutdown by remote party")
                 raise ConnectionError
-            elif data and self._data_receiver:
+            elif (
+                data and self._data_receiver and self._state == State.CONNECTED
+            ):
+                # (application data which comes in the same datagram as the end
+                # of the handshake is not handed over: the peer's identity has
+                # not been validated at that point)
                 await self._data_receiver._handle_data(data)
         elif first_byte > 127 and first_byte < 192 and self._rx_srtp:
             # SRTP / SRTCP
